@@ -42,7 +42,7 @@ func init() {
 			"rep:dense", "rep:sparse", "rep:view", "rep:compl",
 			"graphs:disconnected", "graphs:with_cut_vertex", "graphs:acyclic", "graphs:with_bridge", "graphs:blocks>=4",
 			"calls:Distance", "calls:Eccentricity", "calls:Diameter", "calls:Radius", "calls:Girth", "calls:ConnectedComponent", "calls:ConnectedComponents",
-			"calls:BiconnectedComponents", "calls:NumberOfCycles", "calls:NumberOfInducedCycles", "calls:NumberOfInducedPaths",
+			"calls:BiconnectedComponents", "results_appended_to_by_the_caller:BiconnectedComponents", "reentrant:calls_from_inside_a_caller_implemented_graph", "calls:NumberOfCycles", "calls:NumberOfInducedCycles", "calls:NumberOfInducedPaths",
 			"relabelled_cases", "oracle_crosschecks", "entries_beyond_bound_not_judged", "large:graphs", "large:n=257", "large:calls:Distance",
 			// call sequences on graphs of hundreds to thousands of vertices (huge.go)
 			"huge:graphs_n>=512", "huge:graphs_n>=1024", "huge:graphs_n>=2048", "huge:graphs_n>=4096", "huge:rep:sparse", "huge:rep:dense", "huge:rep:view",
@@ -584,6 +584,7 @@ func (t *gcase) run() {
 			t.panicked("ConnectedComponents", pi, fmt.Sprint(w.comps))
 		} else {
 			t.judgeComponents(got)
+			t.callerAppends("ConnectedComponents", got, nil)
 		}
 	}
 	// BiconnectedComponents
@@ -597,6 +598,16 @@ func (t *gcase) run() {
 			t.panicked("BiconnectedComponents", pi, fmt.Sprintf("blocks %v (+ optionally the isolated vertices %v), articulation %v", w.blocks, w.isolated, w.art))
 		} else {
 			t.judgeBlocks(blocks, art)
+			if t.callerAppends("BiconnectedComponents", blocks, art) && t.large == nil {
+				// ... and the function asked again gives what it gave the first time (the lists above now carry the caller's additions)
+				var b2 [][]int
+				var a2 []int
+				if pi := c.Call(ck+"BiconnectedComponents(again)", func() { b2, a2 = graph.BiconnectedComponents(lg) }); pi != nil {
+					t.panicked("BiconnectedComponents", pi, "the same result as at the first call", "history", "second call after the caller appended to the lists of the first result")
+				} else {
+					t.judgeBlocks(b2, a2)
+				}
+			}
 		}
 	}
 	// NumberOfCycles (editable representations only)
@@ -704,6 +715,44 @@ func (t *gcase) judgeComponents(got [][]int) {
 	if fmt.Sprint(cs) != fmt.Sprint(w.comps) {
 		t.wrong("ConnectedComponents", "", fmt.Sprint(got), fmt.Sprint(w.comps)+" (each once, any order)")
 	}
+}
+
+// callerAppends: the lists of a result belong to the caller, who may append to them.  Every list gets one more element
+// appended in turn (and the flat list, if any); none of the OTHER lists may change by that.  False after a violation.
+func (t *gcase) callerAppends(api string, lists [][]int, flat []int) bool {
+	c := t.c
+	snap := make([][]int, len(lists))
+	for i, l := range lists {
+		snap[i] = append([]int{}, l...)
+	}
+	fsnap := append([]int{}, flat...)
+	intact := func() (int, bool) {
+		for j := range snap {
+			if len(lists[j]) < len(snap[j]) || !eqInts(lists[j][:len(snap[j])], snap[j]) {
+				return j, false
+			}
+		}
+		if len(flat) < len(fsnap) || !eqInts(flat[:len(fsnap)], fsnap) {
+			return -1, false
+		}
+		return 0, true
+	}
+	c.Obs("results_appended_to_by_the_caller:"+api, 1)
+	for i := range lists {
+		lists[i] = append(lists[i], -7-i)
+		if j, ok := intact(); !ok {
+			t.wrong(api, "caller-appends-to-one-list-of-the-result-and-another-list-changes", fmt.Sprintf("after append(result[%d], %d): list %d (-1: the flat list) reads %v", i, -7-i, j, lists), fmt.Sprintf("the other lists as returned: %v %v", snap, fsnap))
+			return false
+		}
+	}
+	if flat != nil {
+		flat = append(flat, -5)
+		if j, ok := intact(); !ok {
+			t.wrong(api, "caller-appends-to-one-list-of-the-result-and-another-list-changes", fmt.Sprintf("after append to the flat list: list %d reads %v", j, lists), fmt.Sprintf("the other lists as returned: %v", snap))
+			return false
+		}
+	}
+	return true
 }
 
 // judgeBlocks judges a result of BiconnectedComponents.
@@ -1122,6 +1171,9 @@ func run(c *engine.Ctx) {
 	// at the resident size of the process during library calls - memory that a unit with graphs of thousands of
 	// vertices has just released, but the runtime has not yet returned, must not be charged to them.
 	ordersWorkload(c)
+
+	// 6b. calls nested in one another through a caller-implemented Graph (reentrant.go)
+	reentrantUnits(c)
 
 	// 7. large structured graphs around the sizes 32, 64, 128, 256
 	largeWorkload(c)
